@@ -125,6 +125,9 @@ def random_case(prop, rng, tier):
     for _ in range(3):
         searches.append([rnd_time(rng, rng.choice(bs) if bs else None), rng.choice([1, -1]), rng.choice([0, 1, 2, 3, 7, 8, 15, 30])])
     case = {'expr': expr, 'q': qs, 'search': searches, 'floats': rng.random() < 0.5}
+    if rng.random() < 0.3:
+        # every calendar object of the expression is also used as an operand of other, discarded expressions
+        case['decoys'] = True
     if not bad and rng.random() < 0.3:
         # the calendar changes after it has been queried (dated entries added through set_units, or the resource is given another
         # calendar): the same resource object must follow it
@@ -214,6 +217,30 @@ def build_impl(expr, floats, dated=None):
     a = build_impl(expr[2], floats, dated)
     b = build_impl(expr[3], floats, dated)
     op = expr[1]
+    if build_impl.decoys:
+        # calendars are values: building other calendars FROM an operand (before and after it is used) must not change what it means
+        _decoys(a)
+    r = _apply(op, a, b)
+    if build_impl.decoys:
+        _decoys(r)
+        _decoys(a)
+    return r
+
+
+build_impl.decoys = False
+
+
+def _decoys(x):
+    if isinstance(x, (int, float)):
+        return
+    for f in (lambda: x + 2, lambda: x - 1, lambda: x * 2, lambda: x | 3, lambda: 2 + x if hasattr(x, '__radd__') else None, lambda: x + x):
+        try:
+            f()
+        except Exception:  # noqa
+            pass
+
+
+def _apply(op, a, b):
     if op == 'add':
         return a + b
     if op == 'sub':
@@ -238,10 +265,13 @@ def execute(prop, case):
     cal = None
     try:
         dated = []
+        build_impl.decoys = bool(case.get('decoys'))
         cal = build_impl(case['expr'], case.get('floats', False), dated)
         rec['build'] = ['ok', None]
     except Exception as e:  # noqa
         rec['build'] = ['err', classify_exc(e)]
+    finally:
+        build_impl.decoys = False
     rec['q'] = []
     rec['cap'] = []
     rec['search'] = []
